@@ -14,7 +14,7 @@ CONSTANT Full
 States == IF Full THEN 0..65535
           ELSE {P2(k) : k \in 0..15} \cup (0..255) \cup (65280..65535)
 
-RepsAgreeOn == \A s \in States : FromBits(ShiftBits(ToBits(s))) = ShiftInt(s)
+RepsAgreeOn == LfsrRepsAgreeOn(States)
 WordIsFourSymbols == \A s \in {LfsrSeed, 1, 32768, 4660} :
                         /\ WordStep(s).key = KeyStream(s, 4)
                         /\ WordStep(s).next = AfterSym(AfterSym(AfterSym(AfterSym(s))))
